@@ -74,7 +74,7 @@ static void run_one_worker(int which) {
 static int blocked_forever; static _Bool in_nested;
 static _Bool hist_other_client_step(void);   /* harness specific: let another client thread issue the next operation of the sequence; 0 if there is none */
 u32 _dispatch_futex_wait(u64 addr, u32 val, u64 timeout, u32 flags) {
-  if (in_nested && ir_cur == 2 && IR_LD32(addr) == val) ASSUME(0);   /* client thread B, issued from inside a running item, sleeps: it resumes only after that item; its path ends here */
+  if (in_nested && ir_cur == 2 && IR_LD32(addr) == val) { WITNESS_REACHED("the nested client thread had to sleep (its path ends here)"); ASSUME(0); }   /* client thread B, issued from inside a running item, sleeps: it resumes only after that item; its path ends here */
   /* the calling thread sleeps: pool workers run the outstanding hand-offs (oldest first); when none is left, another client thread issues the next operation
      of the sequence; if nobody can make progress the sleeper is stranded */
   for (int i = 0; i < MAXPEND + 4 && IR_LD32(addr) == val; i++) {
